@@ -33,6 +33,7 @@ def shards(tier, seed):
     out = [{"part": "random", "i": i, "n": N_RANDOM[tier] // 12} for i in range(12)]
     out += [{"part": "dst", "i": i, "n": N_DST[tier] // 2} for i in range(2)]
     out += [{"part": "aware", "i": 0, "n": N_DST[tier] // 3}]
+    out += [{"part": "ownzone", "i": 0, "n": N_DST[tier] // 2}]
     if tier == "thorough":
         for y0 in range(1971, 2067, 4):
             out.append({"part": "everyday", "y0": y0, "y1": min(y0 + 4, 2067)})
@@ -66,8 +67,10 @@ def gen_case(rnd):
         if rnd.random() < 0.05:
             c["pmoy"] = rnd.choice(["first", "last"])
     elif k == "month":
-        c["m"] = rnd.randrange(1, 13)
+        c["m"] = b.month if rnd.random() < 0.35 else rnd.randrange(1, 13)
         c["s"] = MN[c["m"] - 1]
+        # the day preference fills the day of a month-only string; the direction must hold for the date actually returned
+        c["pdom"] = rnd.choice(["current", "current", "first", "last"])
     elif k in ("dm", "dmt"):
         m = rnd.randrange(1, 13)
         d = rnd.randrange(1, calendar.monthrange(2000, m)[1] + 1)
@@ -109,6 +112,8 @@ def check_case(ctx, c):
     st = {"RELATIVE_BASE": b, "PREFER_DATES_FROM": pref, "TIMEZONE": c["zone"]}
     if c["pmoy"] != "current":
         st["PREFER_MONTH_OF_YEAR"] = c["pmoy"]
+    if c.get("pdom", "current") != "current":
+        st["PREFER_DAY_OF_MONTH"] = c["pdom"]
     PathTap.reset()
     try:
         if (b.day + b.minute) % 3 == 0:
@@ -124,6 +129,8 @@ def check_case(ctx, c):
     ctx.ran()
     path = PathTap.accepted("absolute-time")
     feats = {"kind": kind, "pref": pref, "path": path, "zone_utc": c["zone"] == "UTC"}
+    if c.get("pdom", "current") != "current":
+        feats["pdom"] = c["pdom"]
     why, exp = None, None
     if not isinstance(r, datetime):
         why = "no-result"
@@ -222,7 +229,9 @@ def check_case(ctx, c):
         return
     ctx.count("on_path:absolute-time")
     ctx.count("kind:%s:%s" % (kind, pref))
-    ctx.nontrivial(s, c["base"], pref, c["zone"], c["pmoy"])
+    if kind == "month":
+        ctx.count("month:day-preference:%s" % c.get("pdom", "current"))
+    ctx.nontrivial(s, c["base"], pref, c["zone"], c["pmoy"], c.get("pdom"))
     ctx.sample({"string": s, "base": c["base"], "PREFER_DATES_FROM": pref, "TIMEZONE": c["zone"], "result": iso(r)}, limit=3)
 
 
@@ -292,6 +301,72 @@ def check_aware(ctx, c):
     ctx.nontrivial(c["s"], c["base"], pref, zone, "aware")
 
 
+OWN_ZONES = [("+05:30", 19800), ("-08:00", -28800), ("+09:00", 32400), ("-03:30", -12600), ("+00:00", 0), ("EST", -18000),
+             ("PST", -28800), ("JST", 32400), ("CET", 3600), ("+13:00", 46800)]
+
+
+def check_ownzone(ctx, c):
+    """Time-only string that names its own zone ('07:30 EST'), naive reference, TIMEZONE='UTC': the zone in the string says
+    which instants the clock time denotes; the result is the nearest of them on the preferred side of the reference."""
+    from dateparser.date import DateDataParser
+
+    ctx.remember(check_ownzone, c)
+    b = parse_iso(c["base"])
+    pref, h, mi, off = c["pref"], c["h"], c["mi"], timedelta(seconds=c["off"])
+    st = {"RELATIVE_BASE": b, "PREFER_DATES_FROM": pref, "TIMEZONE": "UTC"}
+    try:
+        r = DateDataParser(languages=["en"], settings=st).get_date_data(c["s"])["date_obj"]
+    except Exception as e:
+        r = e
+    ctx.ran()
+    b_in_z = b + off
+    feats = {"kind": "time-own-zone", "pref": pref, "ref_date_differs_between_zones": b_in_z.date() != b.date()}
+    # candidate instants (as naive UTC): h:mi on the days around the reference's date in the string's zone
+    insts = [(b_in_z + timedelta(days=dd)).replace(hour=h, minute=mi, second=0, microsecond=0) - off for dd in (-2, -1, 0, 1, 2)]
+    if not isinstance(r, datetime) or r.tzinfo is None:
+        ctx.violation(c, r, "an aware datetime", "occurrence:no-result", feats)
+        return
+    r_utc = (r - r.utcoffset()).replace(tzinfo=None)
+    side = [x for x in insts if (x <= b if pref == "past" else x >= b)] if pref != "current_period" else []
+    nearest = [max(side)] if pref == "past" and side else [min(side)] if side else insts[1:4]
+    # (where the reference's date differs between the zones the day itself may be a neighbouring one: the other known defect)
+    for want in (insts if feats["ref_date_differs_between_zones"] else nearest):
+        # the known month reset (C09-month-reset), which acts on the wall time in the string's zone
+        if (want + off).month != b.month and r_utc + off == month_reset(want + off, b, "current") and r_utc != want:
+            feats["crosses_month"] = True
+            ctx.violation(c, r, want, "occurrence:month-reset", feats)
+            return
+    if r_utc not in insts:
+        ctx.violation(c, r, "%02d:%02d in the string's zone" % (h, mi), "occurrence:time-of-day-changed", feats)
+        return
+    if pref == "past":
+        ok = r_utc == max(x for x in insts if x <= b) or r_utc == b
+    elif pref == "future":
+        ok = r_utc == min(x for x in insts if x >= b) or r_utc == b
+    else:
+        # the reference day: its date in the string's zone or in TIMEZONE (the statement does not say)
+        ok = (r_utc + off).date() in (b_in_z.date(), b.date())
+    if not ok:
+        ctx.violation(c, r, "the nearest %02d:%02d (string's zone) %s the reference" % (h, mi, pref),
+                      "occurrence:own-zone-wrong-day", feats)
+        return
+    ctx.count("own_zone:%s" % pref)
+    ctx.count("own_zone:ref_date_differs:%s" % feats["ref_date_differs_between_zones"])
+    ctx.nontrivial(c["s"], c["base"], pref, "own-zone")
+
+
+def gen_ownzone(rnd):
+    b = gen_base(rnd).replace(hour=rnd.randrange(24), minute=rnd.randrange(60))
+    z, off = rnd.choice(OWN_ZONES)
+    h, mi = rnd.randrange(24), rnd.randrange(60)
+    if rnd.random() < 0.3:
+        # a clock time within the offset's width of the reference: where a comparison made in the wrong zone shows
+        t = b + timedelta(seconds=off) + timedelta(minutes=rnd.randrange(-14 * 60, 14 * 60))
+        h, mi = t.hour, t.minute
+    return {"base": iso(b), "pref": rnd.choice(PREFS), "kind": "time-own-zone", "zone": "UTC", "pmoy": "current", "h": h, "mi": mi,
+            "off": off, "s": "%02d:%02d %s" % (h, mi, z)}
+
+
 def gen_aware(rnd):
     off = rnd.choice([0, 0, 5, -7, 9.5, -3, 13])
     b = datetime(rnd.randrange(1975, 2037), rnd.randrange(1, 13), rnd.randrange(8, 22), rnd.randrange(24), rnd.randrange(60),
@@ -313,6 +388,10 @@ def run_shard(ctx, desc):
             rnd = rng(ctx.seed, "C09", desc["i"])
             for _ in range(desc["n"]):
                 check_case(ctx, gen_case(rnd))
+        elif desc["part"] == "ownzone":
+            rnd = rng(ctx.seed, "C09own", desc["i"])
+            for _ in range(desc["n"]):
+                check_ownzone(ctx, gen_ownzone(rnd))
         elif desc["part"] == "aware":
             rnd = rng(ctx.seed, "C09aware", desc["i"])
             for _ in range(desc["n"]):
@@ -360,5 +439,8 @@ def replay_case(ctx, v):
     PathTap.install()
     if v["case"].get("kind") == "time-aware":
         check_aware(ctx, v["case"])
+        return
+    if v["case"].get("kind") == "time-own-zone":
+        check_ownzone(ctx, v["case"])
         return
     check_case(ctx, v["case"])
